@@ -42,6 +42,12 @@ def std_models(include_quantised=True):
                                      "lo": lo, "hi": hi},
                   st.integers(2, 4), st.sampled_from([-5.0, -4.0, -8.0]),
                   st.sampled_from([5.0, 6.0, 8.0])),
+        # parameters with different ranges and likelihood centres: a mix-up
+        # of parameters is visible in bounds / likelihood values
+        st.just({"name": "gauss_uniform", "dims": 2, "lo": [-5.0, 10.0],
+                 "hi": [5.0, 20.0], "mu": [0.0, 15.0]}),
+        st.just({"name": "gauss_uniform", "dims": 3, "lo": [-4.0, 0.0, -20.0],
+                 "hi": [6.0, 3.0, -10.0], "mu": [1.0, 1.5, -15.0]}),
         st.just({"name": "gauss_gauss", "dims": 2}),
         st.just({"name": "gauss_hole", "dims": 2}),
         st.just({"name": "periodic", "dims": 2}),
@@ -142,6 +148,12 @@ def reparam_options(model):
     if name == "gauss_uniform":
         choices.append(st.sampled_from([
             {"x0": "default", "x1": "logit"},
+            # listed in an order different from the model's
+            {"x1": "default", "x0": "logit"},
+            {"x1": {"reparameterisation": "default"},
+             "x0": {"reparameterisation": "default"}},
+            {"x1": "logit"},
+            {"default": {"parameters": ["x1", "x0"]}},
             {"default": {"parameters": ["x.*"], "rescale_bounds": [0, 1]}},
             {"x0": {"reparameterisation": "default",
                     "update_bounds": False}},
